@@ -105,6 +105,18 @@ def check_case(rep: Report, c: dict):
                 y = b[i].transform(y, cnd)
             y2 = b[1:].transform(b[:1].transform(x, cnd), cnd)
             flat_ok = all(type(p).__name__ != "Chain" for p in merged)
+            # a slice is the Chain of the selected parts: its declared cond_shape is the merge of THEIR condition shapes
+            part_cs = [build.mk(p).cond_shape for p in q["parts"]]
+            for sl in (slice(0, 1), slice(1, None), slice(0, -1), slice(None, None, 2)):
+                want = [cs_ for cs_ in part_cs[sl] if cs_ is not None]
+                want = tuple(want[0]) if want else None
+                sub = b[sl]
+                got_cs = None if sub.cond_shape is None else tuple(sub.cond_shape)
+                if got_cs != want or tuple(sub.shape) != shape:
+                    rep.violation({**key, "what": "slice declares the wrong cond_shape", "slice": str(sl)},
+                                  f"{desc}[{sl}]: declares shape {tuple(sub.shape)} / cond_shape {got_cs}; the selected parts give {shape} / {want}",
+                                  {"case": c})
+                    break
             if not (ok and flat_ok and np.array_equal(m1.ravel(), np.array(r["fwd"], dtype=float))
                     and np.array_equal(np.asarray(y).ravel(), np.array(r["fwd"], dtype=float))
                     and np.array_equal(np.asarray(y2).ravel(), np.array(r["fwd"], dtype=float))):
